@@ -42,4 +42,14 @@ def main() -> int:
 
 
 if __name__ == "__main__":
-    sys.exit(main())
+    try:
+        rc = main()
+    except SystemExit:
+        raise
+    except BaseException:  # noqa: BLE001  a crash of the machinery is a harness error (3), never a verdict
+        import traceback
+
+        traceback.print_exc()
+        print("HARNESS-ERROR: the check crashed (see traceback); no verdict")
+        rc = 3
+    sys.exit(rc)
